@@ -6,5 +6,5 @@ src = open('/repo/' + rel).read()
 assert src.count(old) == 1, "old text occurs %d times" % src.count(old)
 dst = src.replace(old, new)
 d = difflib.unified_diff(src.splitlines(True), dst.splitlines(True), 'a/' + rel, 'b/' + rel)
-open('/verif/mutants/%s.diff' % name, 'w').write(''.join(d))
+open(__import__('os').path.join(__import__('os').path.dirname(__import__('os').path.dirname(__import__('os').path.abspath(__file__))), 'mutants', name + '.diff'), 'w').write(''.join(d))
 print("wrote", name)
